@@ -161,6 +161,35 @@ def is_quantised(t, depth=0):
     return False
 
 
+def prints_one_decimal(t, depth=0):
+    """Stricter typestate for str() of a Decimal: the *representation* has exactly one decimal digit
+    (a quantize(., 0.1, .) result, or a selection among such).  Decimal('10') has the value of a
+    one-decimal number but prints as '10': a constant whose spelling is not known does not qualify."""
+    if depth > 12:
+        return False
+    if isinstance(t, Const):
+        return t.v is None
+    if isinstance(t, P):
+        if t.is_const():
+            import re
+
+            txt = getattr(t, "dec_text", None)
+            return isinstance(txt, str) and re.match(r"^\s*[+-]?\d+\.\d\s*$", txt) is not None
+        if len(t.terms) == 1:
+            ((m, c),) = t.terms.items()
+            if c == 1 and len(m) == 1 and m[0][1] == 1:
+                return prints_one_decimal(m[0][0], depth + 1)
+        return False
+    if isinstance(t, App):
+        if t.op == "quant":
+            return Fraction(t.attrs[0]) == Fraction(1, 10)
+        if t.op in ("min", "max"):
+            return all(prints_one_decimal(a, depth + 1) for a in t.args)
+        if t.op == "ite":
+            return prints_one_decimal(t.args[1], depth + 1) and prints_one_decimal(t.args[2], depth + 1)
+    return False
+
+
 def check_quantised(ctx, led, v, rule="C09.quantised"):
     om = get_model(ctx, v)
     n = 0
